@@ -482,6 +482,7 @@ class History:
             dcls, dst = c, 0
             mut = False
             name = op
+            ent = -2
             if op == "open":
                 fl = o["flags"]
                 creating = bool(fl & O_CREAT)
@@ -519,6 +520,9 @@ class History:
                 name = "read"
             elif op in ("stat", "lstat", "opendir", "readdir"):
                 name = "stat"
+                if op == "readdir":
+                    # which in-scope file the walk was handed (0: something else, -1: the directory is exhausted)
+                    ent = src_paths.get(os.path.join(path, o["path2"]), 0) if o["ret"] > 0 else -1
             elif op == "fsync":
                 name = "fsync"
             elif op == "close":
@@ -527,7 +531,7 @@ class History:
                 name = "other"
             ev = {"ev": "op", "op": name, "cls": c, "dcls": dcls, "id": ident, "dst": dst, "ok": bool(ok), "mut": bool(mut),
                   "cum": o["cum"], "final": final_of_tmp.get(path, -1) if (c == "tmp" and name == "create") else -1,
-                  "scan": scanning, "injected": o["fault"] in ("errno", "short"), "k": o["k"], "err": o["err"], "raw": op}
+                  "scan": scanning, "injected": o["fault"] in ("errno", "short"), "k": o["k"], "err": o["err"], "raw": op, "ent": ent}
             self.events.append(ev)
 
     def close(self):
